@@ -112,6 +112,9 @@ package car
 //@   ensures advance [C14]: err == nil ==> br.offset == old(br.offset) + vsize(sectionSize) + sectionSize
 //@   ensures inv_kept [C14]: err == nil ==> br.offset == pos(br.r)
 //@   ensures eof_clean [C02]: err == io.EOF ==> pos(br.r) == old(pos(br.r)) || (br.opts.ZeroLengthSectionAsEOF && e0 == io.EOF && pos(br.r) == old(pos(br.r)) + 1)
+//@   requires size_cache: br.readerSize == -1 || br.readerSize == send(br.r)
+//@   ensures size_cache_kept [C02,C14]: br.readerSize == -1 || br.readerSize == send(br.r)
+//@   ensures skipped_block_is_there [C02]: err == nil ==> pos(br.r) <= lim(br.r) || pos(br.r) <= sbase(br.r) + send(br.r)
 
 //@ func LoadIndex
 //@   requires origin [C03]: pos(r) == sbase(r)
